@@ -620,6 +620,16 @@ package leveldb
 //@   ensures [C11:starts-at-db-seq] ret1 == nil ==> (ret0.seq == db.seq && db.tr == ret0 && len(ret0.tables) == 0)
 
 // Commit: one manifest edit, sequence number published only after the edit succeeded, done only after that.
+// The commit records, and then publishes, the sequence number of the transaction's last record: the manifest must not
+// fall behind the entries in the committed tables (after a reopen later writes would reuse their numbers, and an entry
+// in a shallower level would be older than one below it: C06, C01), nor may the DB's own counter.
+//@ func (*Transaction).Commit
+//@   props C01 C04 C06 C11 C08
+//@   at before call (*sessionRecord).setSeqNum#1
+//@     assert [C01,C04,C06,C08,C11:the-commit-records-the-transactions-last-sequence-number] arg0 == tr.seq
+//@   at before call (*DB).setSeq#1
+//@     assert [C01,C04,C06,C08,C11:the-commit-publishes-the-transactions-last-sequence-number] arg0 == tr.seq
+
 //@ func (*Transaction).Commit
 //@   props C11 C08
 //@   loop 1
@@ -1540,7 +1550,7 @@ package leveldb
 // temporary file.
 //@ ghost var gCreated bool
 //@ func recoverTable$1
-//@   props C19
+//@   props C19 C06
 //@   safety off
 //@   at before call storage.Syncer.Sync#1
 //@     assert [C19:rebuilt-table-is-complete-before-it-is-synced] calls("(*Writer).Close") == old(calls("(*Writer).Close")) + 1
@@ -1550,6 +1560,11 @@ package leveldb
 //@   at after stmt writer, err := s.stor.Create(tmpFd)
 //@     ghost gCreated = (err == nil)
 //@   ensures [C19:failed-rebuild-removes-its-temporary-file] (err != nil && gCreated) ==> calls("storage.Storage.Remove") >= old(calls("storage.Storage.Remove")) + 1
+// ... and it is written like every other table of the session: with the session's table options, i.e. the internal-key
+// comparer and filter - not with the caller's raw options, whose comparer orders user keys (F15: two versions of a
+// key made the rebuild fail, and the index of a rebuilt table broke the first lookup in it).
+//@   at before call NewWriter#1
+//@     assert [C06,C19:a-rebuilt-table-is-written-with-the-sessions-table-options] arg1 == s.o.Options
 
 // C19: Recover rebuilds the table list by scanning every table file (callback 3 of recoverTable, verified as a
 // unit). Per table: the sequence number it reports is not below any valid entry's (together with gLow: it never
